@@ -417,6 +417,8 @@ def Expr.lineFreeE : Expr → Prop
   | .binding _ v _ b a => v.lineFreeE ∧ lineFree b ∧ lineFree a
   | .paren v _ _ _ _ b a => v.lineFreeE ∧ lineFree b ∧ lineFree a
   | .app n x _ fa b a => n.lineFreeE ∧ x.lineFreeE ∧ lineFreeC fa ∧ lineFree b ∧ lineFree a
+  | .wth env body _ _ _ b a => env.lineFreeE ∧ body.lineFreeE ∧ lineFree b ∧ lineFree a
+  | .asrt _ _ _ _ b a => lineFree b ∧ lineFree a
 def allLineFree : List Expr → Prop
   | [] => True
   | e :: rest => e.lineFreeE ∧ allLineFree rest
@@ -474,6 +476,8 @@ theorem lineFreeE_after {e : Expr} (h : e.lineFreeE) : lineFree e.after := by
   | binding n v g b a => exact h.2.2
   | paren v lg tg lb tb b a => exact h.2.2
   | app n x g fa b a => exact h.2.2.2.2
+  | wth e bd c g s b a => exact h.2.2.2
+  | asrt c bd x y b a => exact h.2
 
 mutual
 theorem lexOut_noLine : (e : Expr) → e.ok → e.lineFreeE → ∀ na, noLineL (e.lexOut na)
@@ -512,6 +516,12 @@ theorem lexOut_noLine : (e : Expr) → e.ok → e.lineFreeE → ∀ na, noLineL 
     exact noLineL_append.mpr ⟨noLineL_append.mpr ⟨noLineL_append.mpr ⟨noLineL_append.mpr
       ⟨noLineL_cm hok.2.2.2.1 hf.2.2.2.1, lexOut_noLine n hok.1 hf.1 false⟩, noLineL_cmC hok.2.2.1 hf.2.2.1⟩,
       lexOut_noLine x hok.2.1 hf.2.1 false⟩, noLineL_ite _ noLineL_nil (noLineL_cm hok.2.2.2.2 hf.2.2.2.2)⟩
+  | .wth env body awc g asc b a, hok, hf, na => by
+    simp only [Expr.lexOut]
+    exact noLineL_append.mpr ⟨noLineL_append.mpr ⟨noLineL_append.mpr ⟨noLineL_append.mpr ⟨noLineL_append.mpr
+      ⟨noLineL_cm hok.2.2.2.2.1 hf.2.2.1, noLineL_tok _⟩, lexOut_noLine env hok.1 hf.1 false⟩, noLineL_tok _⟩,
+      lexOut_noLine body hok.2.1 hf.2.1 false⟩, noLineL_ite _ noLineL_nil (noLineL_cm hok.2.2.2.2.2 hf.2.2.2)⟩
+  | .asrt .., hok, _, _ => hok.elim
 theorem lexOutAll_noLine : (es : List Expr) → allOk es → allLineFree es → noLineL (lexOutAll es)
   | [], _, _ => noLineL_nil
   | e :: rest, hok, hf => by
@@ -563,6 +573,10 @@ def Expr.mlSafe : Expr → Prop
   | .app n x g fa _ _ =>
     n.mlSafe ∧ x.mlSafe ∧ n.notBinding = true ∧ x.notBinding = true ∧ n.after = [] ∧ x.after = [] ∧ fnOk fa ∧
       ((Layout.fromGap g).onNewline = false → lineFreeC fa)
+  -- environment and body of a `with` carry no trailing trivia of their own
+  | .wth env body _ _ _ _ _ =>
+    env.mlSafe ∧ body.mlSafe ∧ env.notBinding = true ∧ body.notBinding = true ∧ env.after = [] ∧ body.after = []
+  | .asrt .. => True
 def allMlSafe : List Expr → Prop
   | [] => True
   | e :: rest => e.mlSafe ∧ allMlSafe rest
@@ -740,10 +754,13 @@ theorem rebuildAP_after_nil {e : Expr} (h : e.after = []) (i : Nat) (b : Bool) :
   | binding n v g bf af => simp only [Expr.after] at h; subst h; simp [Expr.rebuildAP]
   | paren v lg tg lb tb bf af => simp only [Expr.after] at h; subst h; simp [Expr.rebuildAP]
   | app n x g fa bf af => simp only [Expr.after] at h; subst h; simp [Expr.rebuildAP]
+  | wth e bd c g s bf af => simp only [Expr.after] at h; subst h; simp [Expr.rebuildAP]
+  | asrt c bd x y bf af => simp only [Expr.after] at h; subst h; simp [Expr.rebuildAP]
 
-/-- the argument of a call is rendered last and carries no trailing trivia -/
+/-- the argument of a call / the body of a `with` is rendered last and carries no trailing trivia -/
 def Expr.tailOk : Expr → Prop
   | .app _ x _ _ _ _ => x.after = [] ∧ x.notBinding = true ∧ x.tailOk
+  | .wth _ x _ _ _ _ _ => x.after = [] ∧ x.notBinding = true ∧ x.tailOk
   | _ => True
 
 theorem mlSafe_tailOk : (e : Expr) → e.mlSafe → e.tailOk
@@ -753,6 +770,8 @@ theorem mlSafe_tailOk : (e : Expr) → e.mlSafe → e.tailOk
   | .binding .., _ => trivial
   | .paren .., _ => trivial
   | .app _ x _ _ _ _, h => ⟨h.2.2.2.2.2.1, h.2.2.2.1, mlSafe_tailOk x h.2.1⟩
+  | .wth _ x _ _ _ _ _, h => ⟨h.2.2.2.2.2, h.2.2.2.1, mlSafe_tailOk x h.2.1⟩
+  | .asrt .., _ => trivial
 
 /-- rendered without its trailing trivia, a value ends with a token -/
 theorem noAfter_ends_tok : (e : Expr) → e.ok → e.tailOk → e.notBinding = true → ∀ (i : Nat) (b : Bool),
@@ -807,8 +826,18 @@ theorem noAfter_ends_tok : (e : Expr) → e.ok → e.tailOk → e.notBinding = t
     · exact endsTok_cons _ ht
     · exact ht
 
+  | .wth env body awc g asc bf af, hok, hml, _, i, b => by
+    obtain ⟨hxa, hxnb, hxm⟩ := hml
+    obtain ⟨b', w, hsh⟩ := withBodyPartP_shape hok.2.1 awc asc i
+    simp only [Expr.rebuildAP, addTriviaP, if_true, trailP_nil]
+    rw [hsh]
+    obtain ⟨t, ht, hst⟩ := noAfter_ends_tok body hok.2.1 hxm hxnb i b'
+    rw [← rebuildAP_after_nil hxa] at ht
+    exact ⟨t, endsTok_append_nil (endsTok_append _ (endsTok_append _ (endsTok_cons _ ht))), hst⟩
+  | .asrt .., hok, _, _, _, _ => hok.elim
+
 /-- the trailing trivia are rendered last -/
-theorem rebuildAP_split {e : Expr} (hnb : e.notBinding = true) (i : Nat) (b : Bool) :
+theorem rebuildAP_split {e : Expr} (hok : e.ok) (hnb : e.notBinding = true) (i : Nat) (b : Bool) :
     e.rebuildAP false i b = e.rebuildAP true i b ++ trailP e.after i := by
   cases e with
   | leaf k t bf af => simp [Expr.rebuildAP, addTriviaP, trailP_nil, Expr.after]
@@ -827,6 +856,8 @@ theorem rebuildAP_split {e : Expr} (hnb : e.notBinding = true) (i : Nat) (b : Bo
   | binding n v g bf af => cases hnb
   | paren v lg tg lb tb bf af => simp [Expr.rebuildAP, addTriviaP, trailP_nil, Expr.after]
   | app n x g fa bf af => simp [Expr.rebuildAP, addTriviaP, trailP_nil, Expr.after]
+  | wth e bd c g s bf af => simp [Expr.rebuildAP, addTriviaP, trailP_nil, Expr.after]
+  | asrt c bd x y bf af => exact hok.elim
 
 /-- an expression without trailing trivia ends closed -/
 theorem closed_of_after_nil {e : Expr} (hok : e.ok) (hml : e.mlSafe) (hnb : e.notBinding = true) (ha : e.after = [])
@@ -839,7 +870,7 @@ theorem closed_of_after_nil {e : Expr} (hok : e.ok) (hml : e.mlSafe) (hnb : e.no
 theorem rebuildAP_open {e : Expr} (hok : e.ok) (hml : e.mlSafe) (hnb : e.notBinding = true) (i : Nat) (b : Bool)
     (h : openAfter false (e.rebuildAP false i b) = true) : ¬ lineFree e.after := by
   obtain ⟨t, ⟨xs, hx⟩, hst⟩ := noAfter_ends_tok e hok (mlSafe_tailOk e hml) hnb i b
-  rw [rebuildAP_split hnb, hx, openAfter_append, open_snoc_tok false xs hst.1] at h
+  rw [rebuildAP_split hok hnb, hx, openAfter_append, open_snoc_tok false xs hst.1] at h
   rcases openAfter_true false _ h with h0 | hl
   · cases h0
   · exact (trailP_safe (ok_after hok) i).2 hl
@@ -1103,6 +1134,26 @@ theorem rebuildAP_safe : (e : Expr) → e.ok → e.mlSafe → ∀ (na : Bool) (i
     split
     · simp only [(ws_then _ _).1, (ws_then _ _).2, hargs, hclosed, Bool.true_and]; exact ht
     · simp only [hargs, hclosed, Bool.true_and]; exact ht
+  | .wth env body awc awGap asc before after, hok, hml, na, i, b => by
+    obtain ⟨he, hbd, _, _, hb, ha⟩ := hok
+    obtain ⟨hem, hbm, henb, hbnb, hea, hba⟩ := hml
+    have ht := (trailP_safe (ite_nil_ok na ha) i).1
+    obtain ⟨b', w, hsh⟩ := withBodyPartP_shape hbd awc asc i
+    have henv : safeGo false (if (withLayout awc awGap).onNewline = true
+          then env.rebuildAP false ((withLayout awc awGap).indent.getD i) false else env.rebuildAP false i true) = true ∧
+        openAfter false (if (withLayout awc awGap).onNewline = true
+          then env.rebuildAP false ((withLayout awc awGap).indent.getD i) false else env.rebuildAP false i true) = false := by
+      split
+      · exact ⟨rebuildAP_safe env he hem false _ _, closed_of_after_nil he hem henb hea _ _⟩
+      · exact ⟨rebuildAP_safe env he hem false _ _, closed_of_after_nil he hem henb hea _ _⟩
+    simp only [Expr.rebuildAP, addTriviaP, List.append_assoc]
+    rw [hsh, (lines_then i hb _).1, (indentP_scan i b _).1]
+    simp only [List.cons_append, List.nil_append, (tok_then _ _).1, (ws_then _ _).1]
+    rw [safeGo_append, henv.1, henv.2, Bool.true_and]
+    simp only [(tok_then _ _).1, (ws_then _ _).1]
+    rw [safeGo_append, rebuildAP_safe body hbd hbm false i b', closed_of_after_nil hbd hbm hbnb hba i b', Bool.true_and]
+    exact ht
+  | .asrt .., hok, _, _, _, _ => hok.elim
 theorem rebuildAllP_safe : (es : List Expr) → allOk es → allMlSafe es → ∀ (i : Nat) (b : Bool),
     ∀ x ∈ rebuildAllP es i b, safeGo false x = true
   | [], _, _, _, _, x, hx => by cases hx
@@ -1118,6 +1169,8 @@ theorem previewP_safe : (e : Expr) → e.ok → e.mlSafe → ∀ (i : Nat) (p : 
   | .binding .., _, _, i, p, h => by simp [Expr.previewP] at h
   | .paren .., _, _, i, p, h => by simp [Expr.previewP] at h
   | .app .., _, _, i, p, h => by simp [Expr.previewP] at h
+  | .wth .., _, _, i, p, h => by simp [Expr.previewP] at h
+  | .asrt .., _, _, i, p, h => by simp [Expr.previewP] at h
   | .list value ml inner before after, hok, hml, i, p, h => by
     obtain ⟨hv, hin, hb, ha⟩ := hok
     refine ⟨[']'], ?_, solidT_lit ']' (by decide), ?_⟩
@@ -1256,6 +1309,7 @@ def Cst.noLineC : Cst → Bool
   | .set _ _ its _ => its.noLineI
   | .paren its _ => its.noLineI
   | .app f cs _ a => f.noLineC && gcNoLine cs && a.noLineC
+  | .kw _ c1 _ h c2 _ c3 _ b => gcNoLine c1 && h.noLineC && gcNoLine c2 && gcNoLine c3 && b.noLineC
 def Items.noLineI : Items → Bool
   | .nil => true
   | .cmt _ t rest => !isLineCmt t && rest.noLineI
@@ -1342,6 +1396,17 @@ theorem cst_noLine_of_noNL : (c : Cst) → c.wf = true → containsNL c.flatten 
     have h3 := containsNL_append_false h2.2
     simp only [Cst.noLineC, Bool.and_eq_true]
     exact ⟨⟨cst_noLine_of_noNL f hfw h2.1, gcNoLine_of_noNL cs g hcs h3.1⟩, cst_noLine_of_noNL a haw h3.2⟩
+  | .kw w c1 g1 h c2 g2 c3 g3 b, hwf, hn => by
+    simp only [Cst.wf, Bool.and_eq_true, List.isEmpty_iff] at hwf
+    obtain ⟨⟨⟨⟨⟨⟨⟨⟨_, hc1⟩, _⟩, hhw⟩, hc2⟩, _⟩, hc3⟩, _⟩, hbw⟩ := hwf
+    subst hc1; subst hc2; subst hc3
+    have h1 : containsNL (kwText w ++ (g1 ++ (h.flatten ++ (g2 ++ ([';'] ++ (g3 ++ b.flatten)))))) = false := by
+      simpa [Cst.flatten, flattenGC, List.append_assoc] using hn
+    have a1 := containsNL_append_false (containsNL_append_false h1).2
+    have a2 := containsNL_append_false a1.2
+    have a3 := containsNL_append_false (containsNL_append_false (containsNL_append_false a2.2).2).2
+    simp only [Cst.noLineC, gcNoLine, List.all_nil, Bool.true_and, Bool.and_true, Bool.and_eq_true]
+    exact ⟨cst_noLine_of_noNL h hhw a2.1, cst_noLine_of_noNL b hbw a3.2⟩
 theorem items_noLine_of_noNL : (its : Items) → ∀ (m : Mode) (cg : Text), its.wf m cg = true → m ≠ .file →
     containsNL (its.flatten ++ cg) = false → its.noLineI = true
   | .nil, _, _, _, _, _ => rfl
@@ -1431,6 +1496,8 @@ theorem lineFreeE_setBefore {e : Expr} (h : e.lineFreeE) {b : List Trivia} (hb :
   | binding n v g b' a => exact ⟨h.1, hb, h.2.2⟩
   | paren v lg tg lb tb b' a => exact ⟨h.1, hb, h.2.2⟩
   | app n x g fa b' a => exact ⟨h.1, h.2.1, h.2.2.1, hb, h.2.2.2.2⟩
+  | wth e bd c g s b' a => exact ⟨h.1, h.2.1, hb, h.2.2.2⟩
+  | asrt c bd x y b' a => exact ⟨hb, h.2⟩
 
 theorem lineFreeE_addAfter {e : Expr} (h : e.lineFreeE) {a : List Trivia} (ha : lineFree a) : (e.addAfter a).lineFreeE := by
   have haa := lineFree_append.mpr ⟨lineFreeE_after h, ha⟩
@@ -1441,6 +1508,8 @@ theorem lineFreeE_addAfter {e : Expr} (h : e.lineFreeE) {a : List Trivia} (ha : 
   | binding n v g b a' => exact ⟨h.1, h.2.1, haa⟩
   | paren v lg tg lb tb b a' => exact ⟨h.1, h.2.1, haa⟩
   | app n x g fa b a' => exact ⟨h.1, h.2.1, h.2.2.1, h.2.2.2.1, haa⟩
+  | wth e bd c g s b a' => exact ⟨h.1, h.2.1, h.2.2.1, haa⟩
+  | asrt c bd x y b a' => exact ⟨h.1, haa⟩
 
 theorem mlSafe_setBefore {e : Expr} (h : e.mlSafe) (b : List Trivia) : (e.setBefore b).mlSafe := by
   cases e <;> exact h
@@ -1520,6 +1589,8 @@ theorem lineFreeE_before {e : Expr} (h : e.lineFreeE) : lineFree e.before := by
   | binding n v g b a => exact h.2.1
   | paren v lg tg lb tb b a => exact h.2.1
   | app n x g fa b a => exact h.2.2.2.1
+  | wth e bd c g s b a => exact h.2.2.1
+  | asrt c bd x y b a => exact h.1
 
 theorem binding_inv {n : Text} {c1 c2 c3 : GC} {g1 g2 g3 : Text} {ve b : Expr} {before : List Trivia}
     (h1 : gcOk c1 g1 = true) (h2 : gcOk c2 g2 = true) (h3 : gcOk c3 g3 = true)
@@ -1856,6 +1927,44 @@ theorem cst_parse_inv : (c : Cst) → c.wf = true → ∀ (e : Expr), c.parse = 
     refine ⟨hai.1, rfl, fun hnl => ?_⟩
     simp only [Cst.noLineC, Bool.and_eq_true] at hnl
     exact hai.2 (hif.2.2 hnl.1.1) hnl.1.2 (hia.2.2 hnl.2)
+  | .kw w c1 g1 h c2 g2 c3 g3 b, hwf, e, hp => by
+    simp only [Cst.wf, Bool.and_eq_true, List.isEmpty_iff] at hwf
+    obtain ⟨⟨⟨⟨⟨⟨⟨⟨hw, hc1⟩, _⟩, hhw⟩, hc2⟩, _⟩, hc3⟩, _⟩, hbw⟩ := hwf
+    subst hw; subst hc1; subst hc2; subst hc3
+    obtain ⟨he, hph, _, _, hha, _⟩ := cst_parse_spec false h hhw (fun h => by cases h)
+    obtain ⟨be, hpb, _, hbb, hba, _⟩ := cst_parse_spec false b hbw (fun h => by cases h)
+    have hih := cst_parse_inv h hhw he hph
+    have hib := cst_parse_inv b hbw be hpb
+    simp only [Cst.parse, hph, hpb, if_true] at hp
+    injection hp with hp; subst hp
+    unfold withFromCst
+    simp only [collectTrivia, collectGo, semiSeq, List.isEmpty_nil, Bool.not_true, Bool.false_and, Bool.false_eq_true,
+      if_false, if_true]
+    have key : ∀ (ts : List Trivia), lineFree ts →
+        (Expr.wth he (if ts.isEmpty then be else be.setBefore (ts ++ be.before)) [] g1 [] [] []).mlSafe ∧
+        (Expr.wth he (if ts.isEmpty then be else be.setBefore (ts ++ be.before)) [] g1 [] [] []).notBinding = true ∧
+        ((Cst.kw true [] g1 h [] g2 [] g3 b).noLineC = true →
+          (Expr.wth he (if ts.isEmpty then be else be.setBefore (ts ++ be.before)) [] g1 [] [] []).lineFreeE) := by
+      intro ts hts
+      refine ⟨⟨hih.1, ?_, hih.2.1, ?_, hha, ?_⟩, rfl, fun hnl => ?_⟩
+      · split
+        · exact hib.1
+        · exact mlSafe_setBefore hib.1 _
+      · split
+        · exact hib.2.1
+        · rw [notBinding_setBefore]; exact hib.2.1
+      · split
+        · exact hba
+        · rw [after_setBefore]; exact hba
+      · simp only [Cst.noLineC, Bool.and_eq_true] at hnl
+        refine ⟨hih.2.2 hnl.1.1.1.2, ?_, lineFree_nil, lineFree_nil⟩
+        split
+        · exact hib.2.2 hnl.2
+        · exact lineFreeE_setBefore (hib.2.2 hnl.2) (lineFree_append.mpr ⟨hts, lineFreeE_before (hib.2.2 hnl.2)⟩)
+    rcases appendGapTrivia_cases (g2 ++ ';' :: g3) with e | e | e <;> rw [e]
+    · exact key [] lineFree_nil
+    · exact key [.emptyLine] (lineFree_single_layout rfl)
+    · exact key [.linebreak] (lineFree_single_layout rfl)
 theorem items_parse_inv : (its : Items) → ∀ (m : Mode) (cg : Text) (st st' : SeqSt), its.wf m cg = true →
     its.parseSeq m st = .ok st' → allMlSafe st.items →
     allMlSafe st'.items ∧ (its.noLineI = true → allLineFree st.items → lineFree st.before →
